@@ -1,6 +1,7 @@
 #!/bin/sh
 # tools/run_all.sh [quick|thorough] [Cxx ...] - run registered checks sequentially, one summary line each
 cd "$(dirname "$0")/.."
+mkdir -p .work
 TIER="${1:-quick}"; shift 2>/dev/null
 PROPS="$@"; [ -z "$PROPS" ] && PROPS="C01 C02 C03 C04 C05 C06 C07 C08 C09 C10 C11 C12 C13 C14 C15 C16 C17 C18 C19 C20"
 for p in $PROPS; do
